@@ -18,6 +18,33 @@ mod refimpl;
 mod runner;
 mod tape;
 
+/// Global allocator wrapper: when armed, every new block is filled with a non-zero pattern so that a read of
+/// uninitialised library memory (the gz layer allocates through the Rust global allocator) changes the
+/// observable output deterministically instead of depending on heap history.
+pub struct PoisonAlloc;
+pub static POISON: std::sync::atomic::AtomicU8 = std::sync::atomic::AtomicU8::new(0);
+unsafe impl std::alloc::GlobalAlloc for PoisonAlloc {
+    unsafe fn alloc(&self, l: std::alloc::Layout) -> *mut u8 {
+        let p = unsafe { std::alloc::System.alloc(l) };
+        let v = POISON.load(std::sync::atomic::Ordering::Relaxed);
+        if v != 0 && !p.is_null() {
+            unsafe { core::ptr::write_bytes(p, v, l.size()) };
+        }
+        p
+    }
+    unsafe fn dealloc(&self, p: *mut u8, l: std::alloc::Layout) {
+        unsafe { std::alloc::System.dealloc(p, l) }
+    }
+    unsafe fn alloc_zeroed(&self, l: std::alloc::Layout) -> *mut u8 {
+        unsafe { std::alloc::System.alloc_zeroed(l) }
+    }
+    unsafe fn realloc(&self, p: *mut u8, l: std::alloc::Layout, n: usize) -> *mut u8 {
+        unsafe { std::alloc::System.realloc(p, l, n) }
+    }
+}
+#[global_allocator]
+static GLOBAL: PoisonAlloc = PoisonAlloc;
+
 use runner::*;
 use std::collections::HashSet;
 
